@@ -9,6 +9,12 @@ here).  PROJ is kept, but `transform_bbox_to` is wrapped so that its results lie
 call is recorded: the recorded table is the function T of the model (T is a section variable of the theorems).
 Each (source, query) pair is evaluated by the model inside Coq (vm_compute) and compared with what was observed:
 no request (BlankImage), the complete parameter set of the URL, or the kind of exception.
+Streams: single sources; two sources of one upstream requested together (service.wms.combined_layers + get_map of every
+resulting layer, model: compatible / combined / render_pair); interleaved requests (a second request is run while the
+first is inside the transformation of the extent: get_map must be a function of source and query only); polygon
+coverages (difference / union / intersection of bbox coverages loaded by the real loader -> GeomCoverage; shapely's
+intersects / contains answers are recorded and are the functions GI / GC of the model; the oracle decides disjointness
+exactly on the rectilinear shape).
 Oracle: the statement of C17 evaluated directly on the recorded URLs and the YAML values.
 """
 from fractions import Fraction
@@ -30,7 +36,8 @@ LEVEL_TEXT = ('Theorems for every WMS source configuration (supported_srs, prefe
               'resolution range; for every tile source and grid: the requested tile satisfies limit_tile of the source grid.')
 LEVEL_NOTE = ('Trusted: Coq kernel, hand-written model Upstream.v (+ Grid.v), the correspondence harness.  PROJ is abstract (T); '
               'float rounding is not modelled: inputs lie on a 1/1024 lattice where the arithmetic of the modelled functions is exact, '
-              'cases whose outcome depends on rounding are counted and skipped.  Geometry (non-bbox) coverages, WMS 1.3.0 axis order, '
+              'cases whose outcome depends on rounding are counted and skipped.  Polygon coverages are abstract predicates (GI, GC) '
+              'with the hypothesis that the bounds of a geometry contain what the geometry contains.  WMS 1.3.0 axis order, '
               'POST requests, ArcGIS/Mapnik sources, GetFeatureInfo/legend requests are not modelled.')
 DESIGN_REF = 'DESIGN.md section 5, C17'
 RULE = ('case = (source configuration from generated YAML, query); non-trivial = a case where a gate, negotiation or clipping branch '
@@ -40,7 +47,7 @@ TRUSTED = ['model Upstream.v hand-written from mapproxy/source/wms.py, source/ti
            'tie = differential run of the real sources vs the model (vm_compute)',
            'PROJ results rounded to the 1/1024 lattice by the harness (T is abstract in the theorems)',
            'strings are identifiers: extension of a mime type, lower-casing and srs_code equality are computed by the harness']
-ASSUMPTIONS = ['coverage is a bbox coverage', 'WMS 1.1.1 GET requests', 'query size > 0 and non-empty bbox',
+ASSUMPTIONS = ['coverage is a bbox coverage or a single polygon coverage (no MultiCoverage); shapely predicates abstract', 'WMS 1.1.1 GET requests', 'query size > 0 and non-empty bbox',
                'PROJ returns a non-degenerate bbox for a non-degenerate bbox']
 EXPLANATION = ('request construction proved over the model for all configurations and queries; implementation compared on generated '
                'configurations loaded by the real loader')
@@ -96,6 +103,7 @@ class Patches:
         self.gcalls = []
         self.recording = False
         self.hook = None
+        self.hook_from = None
 
     def install(self):
         import mapproxy.client.http as H
@@ -112,7 +120,7 @@ class Patches:
 
         def tb(self_, other, bbox, with_points=16):
             key = (self_.srs_code, other.srs_code, tuple(float(v) for v in bbox))
-            if me.hook is not None and not (self_ == other):
+            if me.hook is not None and not (self_ == other) and self_.srs_code == me.hook_from:
                 h, me.hook = me.hook, None
                 h()      # another request runs "concurrently", at this point of the outer one
             try:
@@ -1167,12 +1175,17 @@ def _run(ctx, P, yaml, GridCase):
                         ctx.fail('wms-returned-without-request', 'get_map returned without a request or BlankImage', rep)
                         return
                     wms_oracle(ctx, info, ws, q, kind, urls, rep)
+                    if kind == 'request' and urls and not tag:
+                        pd_ = dict((k.lower(), v) for k, v in parse_url(urls[0][0])[1])
+                        if pd_.get('srs') == q['srs'] and pd_.get('bbox') != ','.join(str(x) for x in q['bbox']):
+                            clipped.append(q)
                     t = wms_term(ctx, info, strs, ws, q, kind, detail, urls, tcalls, gcalls, skipped)
                     if t is not None:
                         tt, gi, gc_, ql, obs = t
                         wms_cases.append('(%s, %s_t, %s_f, %s, %s, %s, %s, %s)' % (uname, uname, uname, tt, gi, gc_, ql, obs))
                         wms_desc.append(rep)
 
+                clipped = []
                 for q in queries:
                     one(q)
                 built_wms[name] = (ws, src, uname, queries)
@@ -1180,12 +1193,19 @@ def _run(ctx, P, yaml, GridCase):
                 # get_map must be a function of (source, query) only (no state shared between requests)
                 if ws.cov and fixed_queries is None:
                     cand = [q for q in queries if not info.same(q['srs'], ws.cov['srs'])]
+                    clip2 = [q for q in clipped if not info.same(q['srs'], ws.cov['srs'])]
                     for _ in range(2):
                         if len(cand) < 2:
                             break
-                        qb_, qa_ = rng.sample(cand, 2)
+                        # prefer two clipped (sub query) requests in different SRS: both transform the extent
+                        pairs_ = [(x, y) for x in clip2 for y in clip2 if not info.same(x['srs'], y['srs'])]
+                        if pairs_:
+                            qb_, qa_ = rng.choice(pairs_)
+                        else:
+                            qb_, qa_ = rng.sample(cand, 2)
                         inner = []
                         P.hook = lambda: inner.append(run_query(P, src, qa_, info))
+                        P.hook_from = ws.cov['srs'].upper()     # interleave while the extent is being transformed
                         r_outer = run_query(P, src, qb_, info)
                         P.hook = None
                         finish(qb_, r_outer, 'interleaved-outer')
@@ -1272,6 +1292,8 @@ def _run(ctx, P, yaml, GridCase):
                     for w_ in (wa, wb):
                         wms_oracle(ctx, info, w_, q, kind, urls, rep)
                     for u, _ in urls:
+                        if 'layers' in {n.lower() for n in wa.fwd}:
+                            continue       # the configuration asks for the client's LAYERS value to be forwarded
                         lay = dict((k.lower(), v) for k, v in parse_url(u)[1]).get('layers')
                         if lay != wa.sconf['req']['layers'] + ',' + wb.sconf['req']['layers']:
                             ctx.fail('pair-layers', 'combined request asks for layers %r' % lay, rep)
